@@ -336,6 +336,8 @@ pub fn set_default(dispatcher: &Dispatch) -> DefaultGuard {
 pub fn set_global_default(dispatcher: Dispatch) -> Result<(), SetGlobalDefaultError> {
     // if `compare_exchange` returns Result::Ok(_), then `new` has been set and
     // `current`—now the prior value—has been returned in the `Ok()` branch.
+    #[cfg(tokio_rs_tracing_verif)]
+    crate::callsite::__verif::yield_point("global:enter");
     if GLOBAL_INIT
         .compare_exchange(
             UNINITIALIZED,
@@ -345,6 +347,8 @@ pub fn set_global_default(dispatcher: Dispatch) -> Result<(), SetGlobalDefaultEr
         )
         .is_ok()
     {
+        #[cfg(tokio_rs_tracing_verif)]
+        crate::callsite::__verif::yield_point("global:won");
         #[cfg(feature = "alloc")]
         let collector = {
             let collector = match dispatcher.collector {
@@ -364,8 +368,12 @@ pub fn set_global_default(dispatcher: Dispatch) -> Result<(), SetGlobalDefaultEr
         unsafe {
             GLOBAL_DISPATCH = Dispatch { collector };
         }
+        #[cfg(tokio_rs_tracing_verif)]
+        crate::callsite::__verif::yield_point("global:written");
         GLOBAL_INIT.store(INITIALIZED, Ordering::SeqCst);
         EXISTS.store(true, Ordering::Release);
+        #[cfg(tokio_rs_tracing_verif)]
+        crate::callsite::__verif::yield_point("global:installed");
         Ok(())
     } else {
         Err(SetGlobalDefaultError { _no_construct: () })
